@@ -279,7 +279,8 @@ def r2_owner(ctx) -> None:
     # get_extension() reports the owner
     eo = prog.cls(f"{EXT}.ExtensionObject")
     ge = eo.methods.get("get_extension")
-    rets = [r for r in ast.walk(ge) if isinstance(r, ast.Return)] if ge else []
+    ge_c = ctx.cfn(f"{EXT}.ExtensionObject.get_extension") if ge else None       # (canonical: a walrus / local holding the field is the field)
+    rets = [r for r in ast.walk(ge_c) if isinstance(r, ast.Return)] if ge_c else []
     ctx.check(len(rets) == 1 and u(rets[0].value) == "self._extension", "C10.R2", "hugr.ext.ExtensionObject.get_extension", eo.module.path, ge.lineno if ge else 1,
               "get_extension must report the owner recorded by add_*", ge)
 
